@@ -18,6 +18,7 @@
 package responseadaptor
 
 import (
+	"fmt"
 	"io"
 	"strconv"
 	"strings"
@@ -94,19 +95,27 @@ func (ra *ResponseAdaptor) Spec() filters.Spec {
 	return ra.spec
 }
 
+// Validate validates the spec.
+func (spec *Spec) Validate() error {
+	if spec.Decompress != "" && spec.Decompress != "gzip" {
+		return fmt.Errorf("ResponseAdaptor only support decompress type of gzip")
+	}
+	if spec.Compress != "" && spec.Compress != "gzip" {
+		return fmt.Errorf("ResponseAdaptor only support compress type of gzip")
+	}
+	if spec.Compress != "" && spec.Decompress != "" {
+		return fmt.Errorf("ResponseAdaptor can only do compress or decompress for given request body, not both")
+	}
+	if spec.Body != "" && spec.Decompress != "" {
+		return fmt.Errorf("no need to decompress when body is specified in ResponseAdaptor spec")
+	}
+	return nil
+}
+
 // Init initializes ResponseAdaptor.
 func (ra *ResponseAdaptor) Init() {
-	if ra.spec.Decompress != "" && ra.spec.Decompress != "gzip" {
-		panic("ResponseAdaptor only support decompress type of gzip")
-	}
-	if ra.spec.Compress != "" && ra.spec.Compress != "gzip" {
-		panic("ResponseAdaptor only support decompress type of gzip")
-	}
-	if ra.spec.Compress != "" && ra.spec.Decompress != "" {
-		panic("ResponseAdaptor can only do compress or decompress for given request body, not both")
-	}
-	if ra.spec.Body != "" && ra.spec.Decompress != "" {
-		panic("No need to decompress when body is specified in ResponseAdaptor spec")
+	if err := ra.spec.Validate(); err != nil {
+		panic(err)
 	}
 	ra.reload()
 }
